@@ -246,61 +246,69 @@ func ruleClientBlock(p *Prog, r *Out) {
 	}
 	// dispatch tail
 	if fd := p.decl("(*Conn).dispatch"); fd != nil {
-		var fin *ast.IfStmt
-		for _, s := range fd.Body.List {
-			if ifs, ok := s.(*ast.IfStmt); ok && squash(p.text(ifs.Cond)) == "err==nil" && ifs.Else != nil {
-				fin = ifs
-			}
-		}
+		finIdx := -1
 		okFin := false
-		if fin != nil && len(fin.Body.List) == 1 {
-			if in, ok := fin.Body.List[0].(*ast.IfStmt); ok && squash(p.text(in.Cond)) == "c.endsStream(fr)" && in.Else == nil && len(in.Body.List) == 1 && squash(p.text(in.Body.List[0])) == "c.finish(r,fr.Stream(),nil)" {
-				if eb, ok := fin.Else.(*ast.BlockStmt); ok && len(eb.List) == 1 && squash(p.text(eb.List[0])) == "c.finish(r,fr.Stream(),err)" {
-					okFin = true
-				}
-			}
-		}
-		r.check(okFin, "dispatch finishes a request on the frame that ends its stream, or on an error", p.pos(fd.Pos()), "err == nil: if endsStream(fr) { finish(nil) }; else finish(err)", "dispatch no longer resolves the request exactly when the frame ends the stream (success) or failed (with the error)")
-		// after that: nil -> false; GoAway-class -> setLastErr, true; FlowControlError -> true; RST back unless the frame was RST_STREAM; false
-		var connIf, flowIf, rstIf *ast.IfStmt
-		for _, s := range fd.Body.List {
+		for i, s := range fd.Body.List {
 			ifs, ok := s.(*ast.IfStmt)
-			if !ok || (fin != nil && ifs.Pos() <= fin.Pos()) {
+			if !ok || squash(p.text(ifs.Cond)) != "err==nil" || ifs.Else != nil || len(ifs.Body.List) != 2 {
 				continue
 			}
-			t := squash(p.text(ifs.Cond))
-			switch {
-			case strings.Contains(t, "connErr.frameType==FrameGoAway"):
-				connIf = ifs
-			case t == "errors.Is(err,FlowControlError)":
-				flowIf = ifs
-			case t == "fr.Type()!=FrameResetStream":
-				rstIf = ifs
+			finIdx = i
+			in, ok1 := ifs.Body.List[0].(*ast.IfStmt)
+			res := retResults(ifs.Body.List[1])
+			if ok1 && squash(p.text(in.Cond)) == "c.endsStream(fr)" && in.Else == nil && len(in.Body.List) == 1 && squash(p.text(in.Body.List[0])) == "c.finish(r,fr.Stream(),nil)" && len(res) == 1 && p.text(res[0]) == "false" {
+				okFin = true
 			}
 		}
-		okConn := connIf != nil && p.isConjunctionOf(connIf.Cond, "errors.As(err,&connErr)", "connErr.frameType==FrameGoAway") && hasStmt(p, connIf.Body.List, "c.setLastErr(err)")
-		if okConn {
-			res := firstReturn(connIf.Body)
-			okConn = len(res) == 1 && p.text(res[0]) == "true"
+		// what follows handles the error
+		var tail []ast.Stmt
+		if finIdx >= 0 {
+			tail = fd.Body.List[finIdx+1:]
 		}
-		r.check(okConn, "a connection-class error stops the read loop", p.pos(fd.Pos()), "errors.As(err, &connErr) && frameType == GOAWAY -> setLastErr; return true", "a header block that does not decode no longer ends the connection: the client carries on with a dynamic table the server does not share")
-		okFlow := false
-		if flowIf != nil {
-			res := firstReturn(flowIf.Body)
-			okFlow = len(res) == 1 && p.text(res[0]) == "true"
+		t := stmtTexts(p, tail)
+		at := func(want string) int {
+			for i, x := range t {
+				if x == want {
+					return i
+				}
+			}
+			return -1
 		}
-		r.check(okFlow, "a flow-control error stops the read loop", p.pos(fd.Pos()), "errors.Is(err, FlowControlError) -> true", "dispatch no longer stops the read loop on a flow-control error")
-		okRst := false
-		if rstIf != nil && rstIf.Else == nil && len(rstIf.Body.List) == 1 && connIf != nil && flowIf != nil && rstIf.Pos() > connIf.Pos() && rstIf.Pos() > flowIf.Pos() {
-			if es, ok := rstIf.Body.List[0].(*ast.ExprStmt); ok {
-				if c, ok := es.X.(*ast.CallExpr); ok && p.calleeOf(c) == "(*Conn).cancelStream" && len(c.Args) == 2 && squash(p.text(c.Args[0])) == "fr.Stream()" {
-					if v, ok := p.intConst(c.Args[1]); ok && v == 1 {
-						okRst = true
+		finErr := at("c.finish(r,fr.Stream(),err)")
+		last := -1
+		if n := len(tail); n > 0 {
+			if res := retResults(tail[n-1]); len(res) == 1 && p.text(res[0]) == "stop" {
+				last = n - 1
+			}
+		}
+		r.check(okFin && finErr >= 0 && finErr < last, "dispatch finishes a request on the frame that ends its stream, or on an error", p.pos(fd.Pos()), "if err == nil { if endsStream(fr) { finish(nil) }; return false }; ...; finish(err); return stop", "dispatch no longer resolves the request exactly when the frame ends the stream (success) or failed (with the error)")
+		// stop := GoAway-class (recorded with setLastErr) || FlowControlError; RST back unless stopping or the frame was RST_STREAM, before the slot goes back
+		def, rec, flow, rst := -1, -1, at("stop=stop||errors.Is(err,FlowControlError)"), -1
+		for i, s := range tail {
+			switch x := s.(type) {
+			case *ast.AssignStmt:
+				if x.Tok == token.DEFINE && len(x.Lhs) == 1 && p.text(x.Lhs[0]) == "stop" && p.isConjunctionOf(x.Rhs[0], "errors.As(err,&connErr)", "connErr.frameType==FrameGoAway") {
+					def = i
+				}
+			case *ast.IfStmt:
+				c := squash(p.text(x.Cond))
+				if c == "stop" && x.Else == nil && len(x.Body.List) == 1 && squash(p.text(x.Body.List[0])) == "c.setLastErr(err)" {
+					rec = i
+				}
+				if p.isConjunctionOf(x.Cond, "!stop", "fr.Type()!=FrameResetStream") && x.Else == nil && len(x.Body.List) == 1 {
+					if es, ok := x.Body.List[0].(*ast.ExprStmt); ok {
+						if cl, ok := es.X.(*ast.CallExpr); ok && p.calleeOf(cl) == "(*Conn).cancelStream" && len(cl.Args) == 2 && squash(p.text(cl.Args[0])) == "fr.Stream()" {
+							if v, ok := p.intConst(cl.Args[1]); ok && v == 1 {
+								rst = i
+							}
+						}
 					}
 				}
 			}
 		}
-		r.check(okRst, "a response turned away is reset", p.pos(fd.Pos()), "stream error and not an RST_STREAM from the server -> RST_STREAM(PROTOCOL_ERROR)", "a response rejected as malformed is no longer answered with RST_STREAM(PROTOCOL_ERROR) on its stream (and only then: not for a connection error, not in answer to the server's own RST_STREAM): the server keeps the stream, and goes on sending on it")
+		r.check(def >= 0 && rec > def && last > rec, "a connection-class error stops the read loop", p.pos(fd.Pos()), "stop := errors.As(err, &connErr) && frameType == GOAWAY; if stop { setLastErr }; return stop", "a header block that does not decode no longer ends the connection: the client carries on with a dynamic table the server does not share")
+		r.check(flow > def && def >= 0 && flow < last, "a flow-control error stops the read loop", p.pos(fd.Pos()), "stop = stop || errors.Is(err, FlowControlError) before return stop", "dispatch no longer stops the read loop on a flow-control error")
+		r.check(rst > flow && flow >= 0 && rst < finErr, "a response turned away is reset", p.pos(fd.Pos()), "not stopping and not an RST_STREAM from the server -> RST_STREAM(PROTOCOL_ERROR), queued before finish gives the slot back", "a response rejected as malformed is no longer answered with RST_STREAM(PROTOCOL_ERROR) on its stream before the stream's slot is given back (and only then: not for a connection error, not in answer to the server's own RST_STREAM): the server keeps the stream, and goes on sending on it")
 	}
 	_ = token.NoPos
 }
